@@ -19,6 +19,7 @@ PANIC_CLASSES = [
     ("fallthrough not supported", "fallthrough not supported"),
     ("nil pointer dereference", "nil condition with post"),
     ("goto not supported", "goto not supported"),
+    ("yield not supported", "yield not supported"),
     ("implement me", "unsupported statement"),
     ("unreached", "unreached"),
 ]
